@@ -222,7 +222,17 @@ def run(ctx):
                             kind = "written bytes:header-and-records"
                     else:
                         # only float fields re-rendered from an inexactly parsed double (C18's known parse inexactness)?
+                        # ... and the eager text must denote exactly the double the eager table holds (the writer prints what was parsed):
+                        # a writer that prints another number is not that finding
                         ll, el2 = lz.split("\n"), eg.split("\n")
+                        try:
+                            held = set()
+                            for fld in fields_of(fmt):
+                                for v in tables.column(E, fld):
+                                    if isinstance(v, float):
+                                        held.add(v)
+                        except Exception:
+                            held = None
                         if len(ll) == len(el2):
                             only_float = True
                             for a, b in zip(ll, el2):
@@ -234,6 +244,8 @@ def run(ctx):
                                     if x != y:
                                         try:
                                             if not tables.values_equal(float(x), float(y)):
+                                                only_float = False
+                                            elif held is not None and float(y) not in held:
                                                 only_float = False
                                         except ValueError:
                                             only_float = False
